@@ -18,8 +18,8 @@ ASSUMPTIONS = ['k > 0, h > 0; violations are 0 exactly or >= 1e-6 in magnitude (
                '"zero on the feasible set / positive off it" is asserted only for the six types whose formula has that shape',
                'values compared with rel 1e-12 (association order of float additions may differ)']
 CLASSES = {
-    'sequence': {'quick': 54000, 'thorough': 400000},
-    'adapters': {'quick': 10800, 'thorough': 75000},
+    'sequence': {'quick': 54000, 'thorough': 540000},
+    'adapters': {'quick': 10800, 'thorough': 108000},
 }
 MIN_EVENTS = {'quick': {'assert:value': 5000, 'assert:state': 3000, 'assert:feasible': 300, 'assert:adapter': 500}}
 REL = 1e-12
